@@ -130,7 +130,20 @@ func c12Bubble(tp *core.Tape, e *core.Env) (ops []string) {
 		case 3:
 			chunks = []int{1 << 20}
 		}
-		n.Targets.Set(TargetHost(h), &sidecarsim.TargetSpec{Payload: payload, ContentType: ct, Gzip: gz, Chunks: chunks})
+		spec := &sidecarsim.TargetSpec{Payload: payload, ContentType: ct, Gzip: gz, Chunks: chunks}
+		// a target whose connection breaks off once in the middle of the body and that answers properly
+		// afterwards: whether Prometheus then sees a failure is C13's business; if it is handed a
+		// complete 200 response, that response must still be exactly the target's body
+		flaky := len(payload) > 1 && tp.Bool("target_breaks_once", 1, 5)
+		if flaky {
+			wire := len(payload)
+			if gz {
+				wire = len(sidecarsim.Gzip(payload))
+			}
+			spec.Fail, spec.FailFirst, spec.FailOffset = "break", 1, 1+tp.Choose("break_once_offset", wire-1)
+			e.Fault("target_break_once")
+		}
+		n.Targets.Set(TargetHost(h), spec)
 		var gotBody []byte
 		var gotCode int
 		var gotCT, gotCE string
@@ -142,6 +155,10 @@ func c12Bubble(tp *core.Tape, e *core.Env) (ops []string) {
 				defer pc.Close()
 			}
 			v := pc.Get(ScrapeURLFor(h, job))
+			if flaky && (v.Err != "" || v.BodyErr != "" || v.Status != 200) {
+				e.Probe("flaky_scrape_failed_for_prometheus")
+				continue
+			}
 			if v.Err != "" || v.BodyErr != "" {
 				e.Violate("delivery", "via=net/http,class="+class, "successful scrape (%s, %d bytes, gzip=%v) but the client saw err=%q bodyErr=%q", class, len(payload), gz, v.Err, v.BodyErr)
 				continue
@@ -155,7 +172,12 @@ func c12Bubble(tp *core.Tape, e *core.Env) (ops []string) {
 			case 2:
 				w.sizes = []int{1}
 			}
-			if aborted := n.SC.Scrape(w, ScrapeURLFor(h, job)); aborted {
+			aborted := n.SC.Scrape(w, ScrapeURLFor(h, job))
+			if flaky && (aborted || (w.code != 0 && w.code != 200)) {
+				e.Probe("flaky_scrape_failed_for_prometheus")
+				continue
+			}
+			if aborted {
 				e.Violate("delivery", "via=writer,class="+class, "successful scrape (%s, %d bytes) but the proxy aborted the response", class, len(payload))
 				continue
 			}
